@@ -228,3 +228,30 @@ var SynCorpus = []*SynGrammar{
 			P("P", Lit("p"), NT("Q")), P("Q", Lit("q"), NT("P")), P("Q"),
 		}},
 }
+
+// WithRecordingActions returns a copy in which every alternative k carries
+// << verifNode(k, $Context, []Attrib{...}) >> (terminals via $Ti, nonterminals via $i).
+func (g *SynGrammar) WithRecordingActions() *SynGrammar {
+	c := *g
+	c.Name = g.Name + "act"
+	c.Header = `import "gen/token"`
+	c.Prods = make([]Prod, len(g.Prods))
+	usesTok := false
+	for k, p := range g.Prods {
+		var args []string
+		for i, s := range p.Body {
+			if s.Term && !s.Error {
+				args = append(args, fmt.Sprintf("$T%d", i))
+				usesTok = true
+			} else {
+				args = append(args, fmt.Sprintf("$%d", i))
+			}
+		}
+		p.Action = fmt.Sprintf("verifNode(%d, $Context, []Attrib{%s})", k, strings.Join(args, ", "))
+		c.Prods[k] = p
+	}
+	if !usesTok {
+		c.Header = ""
+	}
+	return &c
+}
